@@ -44,6 +44,7 @@ def checkGrp : P String := do
   let mg := if list then f.groupByList ω keys else f.groupByString (keys.headD [])
   let mut c04 := "ok"
   let mut c05 := "ok"
+  let mut c20x := "ok"
   let mut corr := "ok"
   let mut known := ""
   let collide := list && Spec.rendersCollide ω keys rows
@@ -131,7 +132,11 @@ def checkGrp : P String := do
             required.all (fun c => present.contains c) && present.all (fun c => required.contains c || optional.contains c)
           else x.keys == Spec.sortedUnion [sGroupKey] cols
         if !(okShape && okCols && okNames) || mustErr then c05 := firstFail c05 s!"fail:{kind}"
-      | none => if !mayErr then c05 := firstFail c05 s!"fail:{kind}-error"
+      | none =>
+        if !mayErr then
+          c05 := firstFail c05 s!"fail:{kind}-error"
+          -- a valid request refused (typically after an earlier rejected one left something behind in the grouping)
+          c20x := firstFail c20x s!"fail:valid-{kind}-refused"
   -- conservation: the group sums of a numeric column add up to the frame-level Sum
   expect "FS"
   expect "R"
@@ -191,7 +196,7 @@ def checkGrp : P String := do
         (d2.order.zip spec2).all (fun (d, s) => d.2 == s.2)
       if !good2 && !collide2 then c04 := firstFail c04 "fail:stale-or-wrong-partition-after-edit"
     else if rg == "panic" then c04 := firstFail c04 "fail:regroup-panic"
-  let c20 := if status == "panic" then "fail:panic" else "ok"
+  let c20 := if status == "panic" then "fail:panic" else c20x
   -- the recorded finding K1: key given as a list, two distinct tuples render alike, implementation = model
   if (c04 != "ok" || c05 != "ok") && collide && corr == "ok" then known := " known=K1"
   let nontriv := specGroups.length ≥ 2 && rows.length > specGroups.length
